@@ -31,6 +31,10 @@ func toByteSortable[T Invertable](v T) ([]byte, error) {
 		/* Floats are bit more tricky to convert to a sortable byte array but follow a similar principle:
 		 * https://stackoverflow.com/questions/54557158/byte-ordering-of-floats
 		 */
+		if v == 0 {
+			// -0.0 and +0.0 are the same number, they must share a key
+			v = 0
+		}
 		bits := math.Float64bits(v)
 		if v >= 0 {
 			bits ^= 0x8000000000000000 // math.MinInt64
